@@ -248,6 +248,67 @@ def repeated_calls_oracle(R, base, ncalls):
     return bad
 
 
+
+class Replayer(Recorder):
+    """serves the recorded normal draws again, each (3, n) block turned by the rotation Q"""
+
+    def __init__(self, calls, Q):
+        self.calls = []
+        self.queue = list(calls)
+        self.Q = Q
+        self.rs = np.random.RandomState(7)
+
+    def randn(self, *shape):
+        if not self.queue or self.queue[0][0] != tuple(shape):
+            raise RuntimeError('second run requested draws of shape %r, the first run did not' % (tuple(shape),))
+        a = self.queue.pop(0)[1]
+        return np.asarray(self.Q.dot(a)) if a.shape[0] == 3 else a.copy()
+
+
+def random_rotation(rs):
+    q, r = np.linalg.qr(rs.randn(3, 3))
+    q = q * np.sign(np.diag(r))
+    if np.linalg.det(q) < 0:
+        q[:, 0] = -q[:, 0]
+    return q
+
+
+def rotation_oracle(R, base, ncases):
+    """Props/C08.v, C08_triad_rotation_equivariant, on the real generators: turning both vector draws of every sample by a
+    rotation Q turns the returned tensor into Q M Q^t (so, the draws being isotropic, no orientation is preferred)"""
+    rng = R.rng
+    for i in range(ncases):
+        n = rng.choice([1, 2, 3, 5, 8, 13])
+        kind = ('dc', 'clvd')[i % 2]
+        alg = new_alg(base, n)
+        rec = Recorder(rng, n)
+        call = (lambda: alg.random_dc()) if kind == 'dc' else (lambda: alg.random_clvd())
+        m1 = np.asarray(with_recorder(rec, call), dtype=float)
+        if any(c[0][0] != 3 for c in rec.calls):
+            continue
+        Q = random_rotation(np.random.RandomState(rng.randrange(2 ** 31)))
+        rep = Replayer(rec.calls, Q)
+        if kind == 'clvd':
+            rep.rs = np.random.RandomState(0)
+        try:
+            m2 = np.asarray(with_recorder(rep, call), dtype=float)
+        except RuntimeError as e:
+            return {'check': 'rotation-equivariance', 'kind': kind, 'number_samples': n, 'what': str(e)}
+        R.count(('rotation', kind))
+        if m1.shape != m2.shape:
+            return {'check': 'rotation-equivariance', 'kind': kind, 'number_samples': n, 'shapes': [list(m1.shape), list(m2.shape)]}
+        for j in range(m1.shape[1]):
+            want = Q.dot(conv.mt33_of_mt6(m1[:, j])).dot(Q.T)
+            got = conv.mt33_of_mt6(m2[:, j])
+            # the CLVD sign is a separate uniform draw: compare up to that sign
+            err = min(np.abs(got - want).max(), np.abs(got + want).max()) if kind == 'clvd' else np.abs(got - want).max()
+            if not err < 1e-9:
+                return {'check': 'rotation-equivariance', 'kind': kind, 'number_samples': n, 'column': j, 'rotation': Q.tolist(),
+                        'draws': [c[1].tolist() for c in rec.calls], 'tensor': m1[:, j].tolist(), 'tensor_after_turning_the_draws': m2[:, j].tolist(),
+                        'error': float(err)}
+    return None
+
+
 def run(R):
     base = _impl()
     proved = R.prove(extra_targets=['Model/Sampling.v'])
@@ -261,7 +322,8 @@ def run(R):
     pbad = pattern_oracle(R, base, R.n(2000, 100000))
     sbad = statistics_oracle(R, base, R.n(20000, 200000))
     rbad = repeated_calls_oracle(R, base, R.n(300, 3000))
-    bad = cbad or pbad or sbad or rbad
+    qbad = rotation_oracle(R, base, R.n(200, 4000))
+    bad = cbad or pbad or sbad or rbad or qbad
     if bad:
         R.violation('random source generator: %s' % bad['check'], bad)
     elif not R.signals:
@@ -271,7 +333,7 @@ def run(R):
                         dict(rec, check='sample-vs-own-draws'))
     R.cov['rule'] = ('recorded draws: 1-20 samples per call for random_mt / random_dc / random_clvd / random_sample, every column compared bit '
                      'for bit with the model on its own draws; pattern: unit norm and eigenvalues of every sample; statistics: first and second '
-                     'moments of the six-vector components, lag-one independence, second moments of the T, N and P axes within one call; 300 consecutive small calls per generator must not repeat a sample; results held across later calls must not change; events of a joint draw must differ')
+                     'moments of the six-vector components, lag-one independence, second moments of the T, N and P axes within one call; 300 consecutive small calls per generator must not repeat a sample; results held across later calls must not change; events of a joint draw must differ; rotation: turning both vector draws of every sample by a random rotation must turn the returned tensor with it (C08_triad_rotation_equivariant on the real generators)')
     return proved
 
 
